@@ -44,6 +44,7 @@ theorem defIzipLeftPosNew_eq (p : Nat) : defIzipLeftPosNew p p = p + 1 := by bri
 @[ga_bridge] theorem defFoldIsIterFold_eq : defFoldIsIterFold = true := by bridge_bool [defFoldIsIterFold]
 @[ga_bridge] theorem defIzip2IsZipMap_eq : defIzip2IsZipMap = true := by bridge_bool [defIzip2IsZipMap]
 @[ga_bridge] theorem cloneIsMapClone_eq : cloneIsMapClone = true := by bridge_bool [cloneIsMapClone]
+@[ga_bridge] theorem cloneFromIsDefault_eq : cloneFromIsDefault = true := by bridge_bool [cloneFromIsDefault]
 @[ga_bridge] theorem defaultIsGenerate_eq : defaultIsGenerate = true := by bridge_bool [defaultIsGenerate]
 @[ga_bridge] theorem fromIterIsTryOrFail_eq : fromIterIsTryOrFail = true := by bridge_bool [fromIterIsTryOrFail]
 
